@@ -275,6 +275,22 @@ def stepI64Op (d : DState) (op : String) (toks impl : List String) : Option (DSt
     if kv.get "T" != some "i64" then none else do
     let n ← kv.nat "N"
     some (report ((put d (← id.toNat?) { st := (Cfg.mean n : Cfg I64).init }).flag "i64") op { model := "ok", impl := implS, kind := "mean-i64" })
+  | "new" :: id :: kind :: rest =>
+    -- the convolution at machine integers (the normalising constructor divides with truncation)
+    let kv := parseKV rest
+    if kv.get "T" != some "i64" || !(kind == "convolve" || kind == "convolve_norm") then none else do
+    let c ← (kv.get "c").bind (fun s => (s.splitOn ",").mapM I64.parse)
+    let sum : Int := (c.map (·.v)).foldl (· + ·) 0
+    -- the division by the sum is exact and the quotients sum to one: "unit gain whenever the sum is non-zero" applies
+    let exact := kind == "convolve_norm" && sum != 0 && c.all (fun x => x.v % sum == 0)
+    let c := if kind == "convolve_norm" then Conv.normalized c else c
+    some (report ((put d (← id.toNat?) { st := (Cfg.convolve c : Cfg I64).init, note := if exact then "unit-gain" else "" }).flag "i64")
+      op { model := "ok", impl := implS, kind := "convolve-i64" })
+  | ["cfg", id] => do
+    let inst ← get (← id.toNat?)
+    match inst.st with
+    | .convolve c _ => some (report d op { model := rl c, impl := implS, kind := "convolve-i64" })
+    | _ => some (report d op { model := "-", impl := implS, kind := "mean-i64" })
   | ["f", id, v] => do
     let id ← id.toNat?
     let inst ← get id
@@ -287,6 +303,11 @@ def stepI64Op (d : DState) (op : String) (toks impl : List String) : Option (DSt
         | .mean N _ => if N == 0 then [] else
           let e := (Spec.windowMean N (hist.filterMap List.head?)).render
           [{ name := "C03.window-mean", ok := e == implS, expected := e : Clause }]
+        | .convolve _ _ =>
+          let xs := hist.filterMap List.head?
+          if inst.note == "unit-gain" && xs.all (fun v => v.v == x.v) then
+            [{ name := "C05.normalized-unit-gain", ok := x.render == implS, expected := x.render : Clause }]
+          else []
         | _ => []
       let d := d.flag (match inst.st with | .mean N _ => if hist.length > N then "slid" else "warmup" | _ => "multi")
       some (report (put d id { inst with st := st', hist := hist }) op
@@ -297,6 +318,7 @@ def stepI64Op (d : DState) (op : String) (toks impl : List String) : Option (DSt
     | .mean _ s, "mean" => some (report d op { model := (match s.mean with | none => "none" | some m => m.render), impl := implS, kind := "mean-i64" })
     | .mean _ s, "taps" => some (report d op { model := rl s.taps, impl := implS, kind := "mean-i64" })
     | .mean _ s, "weight" => some (report d op { model := s.weight.render, impl := implS, kind := "mean-i64" })
+    | .convolve _ t, "taps" => some (report d op { model := rl t, impl := implS, kind := "convolve-i64" })
     | _, _ => none
   | ["reset", id] => do
     let id ← id.toNat?
